@@ -1,5 +1,5 @@
 SPECIFICATION Spec
-CONSTANT Deep = FALSE
+CONSTANT Deep = TRUE
 INVARIANT EmitInv
 INVARIANT BaseValid
 INVARIANT FaultDetected
